@@ -56,7 +56,8 @@ InPlace(k) == /\ fam \in {"objT", "objF"}
 
 P(k, v) == [k |-> k, v |-> v, a |-> 0, m |-> FALSE]
 NoP == [k |-> "", v |-> 0, a |-> 0, m |-> FALSE]
-\* what the CPO get_code() returns for a payload object
+\* what the CPO get_code() returns for a payload object (the real payloads add 1000 * <number of their type>, which the
+\* kind-class quotient below cannot predict; the driver strips it before comparing, the monitor EraseMon checks it)
 Code(o) == o.v * 10 + o.a + (IF o.m THEN 500 ELSE 0)
 TypeNo(k) == IF k = "S1" THEN 1 ELSE IF k = "S2" THEN 2 ELSE 0
 
@@ -222,9 +223,9 @@ Invoke(w, cpo) ==
      \E m1 \in {SetTarget(m0, w, o2)} :
      LET m2 == CASE cpo = "get" -> [m1 EXCEPT !.res = Code(o)]
                  [] cpo = "add" -> [m1 EXCEPT !.res = Code(o2)]
-                 [] cpo = "snd" -> [m1 EXCEPT !.res = Code(o) + 7000]
-                 [] cpo = "ovl" -> [m1 EXCEPT !.res = Code(o) * 3]
-                 [] OTHER -> [m1 EXCEPT !.exc = 2000 + Code(o)]
+                 [] cpo = "snd" -> [m1 EXCEPT !.res = Code(o) + 70000]
+                 [] cpo = "ovl" -> [m1 EXCEPT !.res = Code(o) + 300000]
+                 [] OTHER -> [m1 EXCEPT !.exc = 20000 + Code(o)]
          a2 == IF cpo = "add" /\ abs[w].t = "val" THEN [abs EXCEPT ![w].o.a = 1] ELSE abs
      IN Commit(m2, [NoOp EXCEPT !.k = "invoke", !.w = w, !.cpo = cpo], a2)
 
